@@ -2,7 +2,7 @@
 From Coq Require Import List Bool.
 Import ListNotations.
 From Mos Require Import Str Xml Outcome Seq Spec Elements Classify Messages Merge Proto.
-From Mos.proofs Require Import Frame ItemFacts.
+From Mos.proofs Require Import Frame ItemFacts StoryStable.
 
 (* Story-level merges: every child of roCreate that is not a story whose ID the message
    names or carries - metadata, other stories with everything inside them - keeps identical
@@ -60,3 +60,29 @@ Theorem C03_frame_inside_story :
     untouched ikey (item_touch_ids k b) ik' = untouched ikey (item_touch_ids k b) (kids_of s).
 Proof. exact item_frame. Qed.
 Print Assumptions C03_frame_inside_story.
+
+(* Without any hypothesis on the message, the IDs or the outcome (success, warning, any
+   exception, at whatever point): an item-level merge leaves the child list of roCreate as it
+   was, or replaces the child list of one <story> by a list with the same non-item children
+   (storyID, storySlug, paragraphs, mosExternalMetadata ...) in the same order. *)
+Theorem C03_item_ops_keep_non_items :
+  forall (o : oracles) (k : mclass) (m b rc : xml),
+  is_item_class k = true ->
+  r_st (merge_kids o k m b rc) = kids_of rc \/
+  exists i s ik', nth_error (kids_of rc) i = Some s /\ has_tag t_story s = true /\
+    others ikey ik' = others ikey (kids_of s) /\
+    r_st (merge_kids o k m b rc) = update_nth i (fun s' => set_kids s' ik') (kids_of rc).
+Proof. exact item_merge_shape. Qed.
+Print Assumptions C03_item_ops_keep_non_items.
+
+(* Likewise the children of roCreate that are not stories (roID, roSlug, roEdStart, metadata,
+   triggers) are untouched, in the same order, by all 11 story-level and all 9 item-level
+   classes - moves and swaps with unresolvable, repeated or self-referential IDs included. *)
+Theorem C03_story_and_item_ops_keep_non_stories :
+  forall (o : oracles) (k : mclass) (m b rc : xml),
+  is_story_class k = true \/ is_item_class k = true ->
+  others skey (r_st (merge_kids o k m b rc)) = others skey (kids_of rc).
+Proof.
+  intros o k m b rc [H|H]; [now apply story_merge_others | now apply item_merge_others].
+Qed.
+Print Assumptions C03_story_and_item_ops_keep_non_stories.
